@@ -13,5 +13,7 @@ DeepAll = FALSE
 NameMenu = {"A", "ID", "Ab", "URL", "Abc", "AbC", "DNSX", "AbCd", "ABcd"}
 TwoVariant = {"E0", "[0]uint8", "[1]uint8", "bool", "int", "uint8", "string", "[2]float32", "[2]int", "time", "MyInt", "Simp", "PSimp", "Gen", "JM", "PJM", "TM"}
 NbrDistinct = FALSE
+Hot2Kinds = {}
+Hot2Tags = {}
 CONSTRAINT Emit
 CHECK_DEADLOCK FALSE
